@@ -1,3 +1,4 @@
+from common import guarded
 """C06  A histogram counts each sample in the unique half-open bin that contains it.  Engine K."""
 from hist_common import hist_job, hist_const_job, COMMON_META, F, FC
 
@@ -93,14 +94,14 @@ def large_len_corpus():
 def run(tier, seed):
     lens = [1, 2, 3, 4] if tier == "quick" else [1, 2, 3, 4, 10]
     job = hist_job("C06", lens, NAMES, unwind=14)
-    obs = job.run()
-    obs += modular_job(tier)
-    obs += large_len_corpus()
+    obs = guarded("C06.engine.job.run@L96", lambda: job.run())
+    obs += guarded("C06.engine.modular_job@L97", lambda: modular_job(tier))
+    obs += guarded("C06.engine.large_len_corpus@L98", lambda: large_len_corpus())
     if tier == "quick":
         # the exported Histogram10 (the crate's own instantiation): find/add against the bin contract as well
         obs += hist_job("C06", [10], NAMES[:1], unwind=14, timeout=900, harness_timeout=600).run()
     # the const-generic copy (feature nightly) is a second implementation of the same contract: both tiers (seconds)
-    obs += hist_const_job("C06", [1, 3], NAMES, unwind=8).run()
+    obs += guarded("C06.engine.hist_const_job@L103", lambda: hist_const_job("C06", [1, 3], NAMES, unwind=8).run())
     if tier == "thorough":
         # LEN = 100 does not terminate within 2700 s in CBMC (LEN = 40 needs ~12 min): the largest complete proof is LEN = 40,
         # LEN = 100 stays with the bounded linear-scan corpus
